@@ -244,7 +244,7 @@ Section ToksN.
     is_text n = false -> nodeN_ok n.
   Proof.
     induction n as [ns name attrs kids IHk|s|s|tg c] using node_ind'; intros HW HK HT; try discriminate.
-    - cbn [wf_node] in HW. destruct HW as [H1 [H2 [H3 [H4 [H5 [H6 H7]]]]]]. apply wf_fix in H7.
+    - cbn [wf_node] in HW. destruct HW as [H1 [H2 [H3 [H4 [H5 [H6 H7]]]]]]. apply wf_fix in H7. apply attrs_wf0 in H4.
       destruct (kidsN_premises kids H7 IHk) as [P1 P2].
       { intros k x Hk Hx. apply HK. apply tree_nss_tag. right. right. exists k. split; assumption. }
       destruct (kidsN_ok kids P1 P2 [] (Forall_nil _)) as [K1 K2].
@@ -254,7 +254,7 @@ Section ToksN.
       unfold nodeN_ok. rewrite toksN_node_tag. exact (tag_toks_okG _ _ kids _ Hq Ha K1 K2).
     - cbn [wf_node] in HW. unfold nodeN_ok. cbn [toksN_node]. split; [constructor; [split; [apply comment_validator_ok; exact (proj1 HW) | exact (proj2 HW)] | constructor]|].
       split; [exact I|]. split; [reflexivity|]. exists [], (TComment s). split; reflexivity.
-    - cbn [wf_node] in HW. destruct HW as [H1 [H2 [H3 [H4 H5]]]]. unfold nodeN_ok. cbn [toksN_node].
+    - cbn [wf_node] in HW. destruct HW as [H1 [H2 [H3 [H4 H5]]]]. apply pi_validator_ok in H4. unfold nodeN_ok. cbn [toksN_node].
       assert (Hn : is_name tg = true) by (unfold is_ncname in H1; apply andb_prop in H1; destruct H1; assumption).
       split; [constructor; [repeat split; assumption | constructor]|].
       split; [exact I|]. split; [reflexivity|]. exists [], (TPI tg c). split; reflexivity.
@@ -265,7 +265,7 @@ Section ToksN.
     wf_node t -> (forall x, In x (tree_nss t) -> In x (dict_keys pm)) ->
     Forall tok_ok (toksN_root pm t) /\ no_adj_ttext (toksN_root pm t).
   Proof.
-    intros t HW HK. unfold t in *. cbn [wf_node] in HW. destruct HW as [H1 [H2 [H3 [H4 [H5 [H6 H7]]]]]]. apply wf_fix in H7.
+    intros t HW HK. unfold t in *. cbn [wf_node] in HW. destruct HW as [H1 [H2 [H3 [H4 [H5 [H6 H7]]]]]]. apply wf_fix in H7. apply attrs_wf0 in H4.
     assert (IHk : Forall (fun k => wf_node k -> (forall x, In x (tree_nss k) -> In x (dict_keys pm)) ->
                                    is_text k = false -> nodeN_ok k) kids).
     { apply Forall_forall. intros k _. apply wf_nodeN_ok. }
@@ -324,7 +324,7 @@ Proof.
   { intros n Hn. apply (wf_nss _ HW). destruct (collect_keys _ _ _ _ EC n Hn) as [->|Hn'].
     - apply root_ns_in_tree_nss. reflexivity.
     - apply (order_ok_same_set _ _ HO). exact Hn'. }
-  pose proof HW as HW0. cbn [wf_node] in HW. destruct HW as [H1 [H2 [H3 [H4 [H5 [H6 H7]]]]]]. apply wf_fix in H7.
+  pose proof HW as HW0. cbn [wf_node] in HW. destruct HW as [H1 [H2 [H3 [H4 [H5 [H6 H7]]]]]]. apply wf_fix in H7. apply attrs_wf0 in H4.
   set (E0 := decl_env (declared_attributes pm) ++ initial_env).
   assert (OR : open_element initial_env (qname pm ns name) (root_tok_attrs pm attrs) = Some (E0, ns, name, attrs)).
   { apply (open_root pm PF); try assumption.
